@@ -138,7 +138,6 @@ open ColaVerif.Properties.C04 ColaVerif.Dispatch in
 #print axioms ColaVerif.Properties.C04.C04_hier_wf
 #print axioms ColaVerif.Properties.C04.C04_covers_registry
 #print axioms ColaVerif.Properties.C04.C04_total_unambiguous
-#print axioms ColaVerif.Properties.C04.C04_clauses_witnessed
 #print axioms ColaVerif.Properties.C04.C04_tables_preorder
 #print axioms ColaVerif.Properties.C04.C04_selected_is_minimal
 #print axioms ColaVerif.Properties.C04.C04_no_recorded_exception
